@@ -24,8 +24,9 @@ from fim.slivers.attached_components import ComponentType
 from fim.slivers.capacities_labels import Capacities, Labels
 
 NODE_NAMES = ['n1', 'n2', 'n3', 'n9', 'fac1']
-COMP_NAMES = ['nic1', 'nic2', 'gpu1', 'cx9']
-SVC_NAMES = ['sts1', 'ptp1', 'br1', 'sv9']
+COMP_NAMES = ['nic1', 'nic2', 'gpu1', 'cx9', 'nic3', 'fpga1']
+CNODES = ['n1', 'n2', 'n3']
+SVC_NAMES = ['sts1', 'ptp1', 'br1', 'sv9', 'fab1', 'fab2']
 NTYPES = [NodeType.VM, NodeType.Server, NodeType.Switch]
 CTYPES = [ComponentType.GPU, ComponentType.SmartNIC, ComponentType.SharedNIC, ComponentType.NVME, ComponentType.FPGA]
 STYPES = [ServiceType.L2Bridge, ServiceType.L2PTP, ServiceType.L2STS, ServiceType.FABNetv4, ServiceType.L3VPN]
@@ -46,6 +47,7 @@ class Step:
         self.disconnect = None      # node id of a node interface that was disconnected
         self.handle = None
         self.handle_fresh = None
+        self.unpeer = None
 
 
 SYMBOLIC_OPS = ('add_node', 'add_component', 'add_component_known_model', 'add_facility', 'set_node_property')
@@ -57,8 +59,13 @@ USES = {
     'remove_component': (2, 4, 0, 0), 'add_network_service': (4, 5, 3, 2), 'remove_network_service': (4, 0, 0, 0),
     'connect_interface': (3, 6, 0, 0), 'disconnect_interface': (3, 6, 0, 0), 'add_facility': (5, 3, 0, 0), 'remove_facility': (5, 0, 0, 0),
     'add_switch': (5, 3, 3, 0), 'add_child_interface': (6, 2, 4, 0), 'remove_child_interface': (6, 2, 0, 0), 'add_storage': (2, 2, 0, 0),
-    'add_port_mirror_service': (4, 6, 3, 0), 'rename_node': (2, 5, 0, 0), 'set_node_property': (2, 3, 3, 0),
+    'add_port_mirror_service': (4, 9, 3, 0), 'rename_node': (2, 5, 0, 0), 'set_node_property': (2, 3, 3, 0),
+    'peer': (6, 6, 0, 0), 'unpeer': (6, 6, 0, 0), 'remove_link': (3, 0, 0, 0),
 }
+USES.update({'add_component': (3, 6, 5, 0), 'add_component_known_model': (2, 3, 6, 1), 'remove_component': (3, 6, 0, 0),
+             'add_network_service': (3, 5, 3, 2), 'remove_network_service': (6, 0, 0, 0), 'connect_interface': (3, 9, 0, 0),
+             'disconnect_interface': (3, 9, 0, 0), 'add_child_interface': (9, 2, 4, 0), 'remove_child_interface': (9, 2, 0, 0),
+             'add_facility': (5, 3, 2, 0)})
 MODEL_POOL = ['ConnectX-6', 'nope', 'RTX6000', 'P4510', 'ConnectX-5']
 
 
@@ -74,7 +81,7 @@ def do_step(t, op, a, b, c, n, m, picks, symbolic_values):
     b = _concretize(b, ub) if ub else 0
     c = _concretize(c, uc) if uc else 0
     npick = (c % 4) if op == 'add_network_service' else up
-    picks = [_concretize(picks[i], 6) if i < npick else 0 for i in range(len(picks))]
+    picks = [_concretize(picks[i], 5 if op == 'add_network_service' else 9) if i < npick else 0 for i in range(len(picks))]
     return untraced(_do_step, t, op, a, b, c, 2, MODEL_POOL[c % 5] if op == 'add_component' else 'x', picks)
 
 
@@ -97,25 +104,28 @@ def _do_step(t, op, a, b, c, n, m, picks):
                 st.gone_root = t.nodes[nm].node_id
             t.remove_node(nm)
         elif op == 'add_component':
-            node = t.nodes[['n1', 'n2'][a % 2]]
-            node.add_component(name=COMP_NAMES[b % 4], ctype=CTYPES[c % 5], model=m)
+            node = t.nodes[CNODES[a % 3]]
+            node.add_component(name=COMP_NAMES[b % 6], ctype=CTYPES[c % 5], model=m)
         elif op == 'add_component_known_model':
-            node = t.nodes[['n1', 'n2'][a % 2]]
+            node = t.nodes[['n1', 'n3'][a % 2]]
             ct, md = [(ComponentType.GPU, 'RTX6000'), (ComponentType.SmartNIC, 'ConnectX-6'), (ComponentType.SharedNIC, 'ConnectX-6'),
                       (ComponentType.NVME, 'P4510'), (ComponentType.FPGA, 'Xilinx-U280'), (ComponentType.GPU, 'ConnectX-6')][c % 6]
-            node.add_component(name=COMP_NAMES[b % 4], ctype=ct, model=md, capacities=Capacities(unit=n))
+            kw = [{}, {'bogus_property': 1}, {'labels': 'not-a-labels-object'}][picks[0] % 3]      # a bad property among good ones
+            node.add_component(name=['nic1', 'cx9', 'fpga1'][b % 3], ctype=ct, model=md, capacities=Capacities(unit=n), **kw)
         elif op == 'remove_component':
-            node = t.nodes[['n1', 'n2'][a % 2]]
-            cn = COMP_NAMES[b % 4]
+            node = t.nodes[CNODES[a % 3]]
+            cn = COMP_NAMES[b % 6]
             if cn in node.components:
                 st.gone_root = node.components[cn].node_id
             node.remove_component(cn)
         elif op == 'add_network_service':
             pool = node_ifaces(t)
-            ifs = [pool[p % len(pool)] for p in picks[:(c % 4)]] if pool else []
-            t.add_network_service(name=SVC_NAMES[a % 4], nstype=STYPES[b % 5], interfaces=ifs, capacities=Capacities(bw=10))
+            # representative interfaces: shared connected / dedicated connected / dedicated with sub-interfaces / dedicated free / last one
+            rep = [pool[k % len(pool)] for k in (0, 1, 2, 5, len(pool) - 1)] if pool else []
+            ifs = [rep[p % 5] for p in picks[:(c % 4)]] if pool else []
+            t.add_network_service(name=['sts1', 'sv9', 'fab1'][a % 3], nstype=STYPES[b % 5], interfaces=ifs, capacities=Capacities(bw=10))
         elif op == 'remove_network_service':
-            nm = SVC_NAMES[a % 4]
+            nm = SVC_NAMES[a % 6]
             if nm in t.network_services:
                 st.gone_root = t.network_services[nm].node_id
             t.remove_network_service(nm)
@@ -135,7 +145,8 @@ def _do_step(t, op, a, b, c, n, m, picks):
             svc.disconnect_interface(i)
             st.handle, st.handle_fresh = svc, ('svc', svc.name)
         elif op == 'add_facility':
-            t.add_facility(name=NODE_NAMES[a], site=SITES[b % 3], capacities=Capacities(bw=n))
+            kw = [{'capacities': Capacities(bw=n)}, {'capacities': Capacities(bw=n), 'bogus_property': 1}][c % 2]
+            t.add_facility(name=NODE_NAMES[a], site=SITES[b % 3], **kw)
         elif op == 'remove_facility':
             nm = NODE_NAMES[a]
             facs = t.facilities
@@ -157,12 +168,29 @@ def _do_step(t, op, a, b, c, n, m, picks):
             if kids:
                 st.gone_root = kids[0].node_id
             par.remove_child_interface(name=nm)
+            st.handle, st.handle_fresh = par, ('iface', par.node_id)
         elif op == 'add_storage':
             t.nodes[['n1', 'n3'][a % 2]].add_storage(name=['vol1', 'vol9'][b % 2], labels=Labels(local_name='x'))
         elif op == 'add_port_mirror_service':
             pool = node_ifaces(t)
             t.add_port_mirror_service(name=SVC_NAMES[a % 4], from_interface_name='p1', to_interface=pool[b % len(pool)],
                                       direction=list(MirrorDirection)[c % len(list(MirrorDirection))])
+        elif op == 'peer':
+            if a % 6 == b % 6:
+                return st       # peering a service with itself is not a meaningful call
+            sa, sb = t.network_services[SVC_NAMES[a % 6]], t.network_services[SVC_NAMES[b % 6]]
+            sa.peer(sb)
+            st.handle, st.handle_fresh = sa, ('svc', sa.name)
+        elif op == 'unpeer':
+            sa, sb = t.network_services[SVC_NAMES[a % 6]], t.network_services[SVC_NAMES[b % 6]]
+            st.unpeer = (sa.node_id, sb.node_id)
+            sa.unpeer(sb)
+            st.handle, st.handle_fresh = sb, ('svc', sb.name)
+        elif op == 'remove_link':
+            nm = ['lan3', 'nolink', 'lan3'][a % 3]     # links created by add_link; the links a service connection creates are removed by disconnect
+            if nm in t.links:
+                st.gone_root = t.links[nm].node_id
+            t.remove_link(nm)
         elif op == 'rename_node':
             t.nodes[['n1', 'n2'][a % 2]].rename(NODE_NAMES[b % 5])
         elif op == 'set_node_property':
@@ -181,9 +209,9 @@ def _do_step(t, op, a, b, c, n, m, picks):
     return st
 
 
-ADD_OPS = ['add_node', 'add_component', 'add_component_known_model', 'add_network_service', 'connect_interface', 'add_facility', 'add_switch',
+ADD_OPS = ['peer', 'add_node', 'add_component', 'add_component_known_model', 'add_network_service', 'connect_interface', 'add_facility', 'add_switch',
            'add_child_interface', 'add_storage', 'add_port_mirror_service', 'rename_node', 'set_node_property']
-REMOVE_OPS = ['remove_node', 'remove_component', 'remove_network_service', 'disconnect_interface', 'remove_facility',
+REMOVE_OPS = ['unpeer', 'remove_link', 'remove_node', 'remove_component', 'remove_network_service', 'disconnect_interface', 'remove_facility',
               'remove_child_interface']
 ALL_OPS = ADD_OPS + REMOVE_OPS
 
@@ -192,6 +220,17 @@ def removal_expected(pre, st):
     """exact post-snapshot predicted by the ownership-closure model"""
     nodes, edges = pre
     gone = []
+    if st.unpeer is not None:
+        a, b = st.unpeer
+        out = []
+        for cp in neighbours(pre, a, 'connects', 'ConnectionPoint'):
+            for l in links_of(pre, cp):
+                for o in neighbours(pre, l, 'connects', 'ConnectionPoint'):
+                    if o != cp and b in neighbours(pre, o, 'connects', 'NetworkService'):
+                        out += [cp, l, o]
+        return expected_after_removal(pre, out)
+    if st.gone_root is not None and nodes[st.gone_root].get('Class') == 'Link':
+        return expected_after_removal(pre, [st.gone_root])
     if st.gone_root is not None:
         gone = owned_closure(pre, st.gone_root)
     elif st.disconnect is not None:
@@ -203,7 +242,9 @@ def removal_expected(pre, st):
     for cp in cps:
         for l in links_of(pre, cp):
             ends = neighbours(pre, l, 'connects', 'ConnectionPoint')
-            if len(ends) <= 2:
+            remaining = [o for o in ends if o not in cps]
+            # a link goes when at most one end would be left (2-ended link, or a shared link losing all but one end)
+            if len(remaining) <= 1:
                 extra.append(l)
                 for o in ends:
                     # the service-side port created for this connection goes with it
@@ -229,16 +270,18 @@ def handle_consistent(t, st):
     return sorted(i.node_id for i in st.handle.interface_list) == sorted(i.node_id for i in fresh.interface_list)
 
 
-def mk(prop, kind, op):
+def mk(prop, kind, op, small=False):
     def h_step(a: int, b: int, c: int, n: int, m: str, p0: int, p1: int, p2: int) -> bool:
         """
-        pre: 0 <= a < 5 and 0 <= b < 6 and 0 <= c < 6 and n >= 0 and len(m) <= 3
-        pre: 0 <= p0 < 6 and 0 <= p1 < 6 and 0 <= p2 < 6
+        pre: 0 <= a < 9 and 0 <= b < 9 and 0 <= c < 6 and n >= 0 and len(m) <= 3
+        pre: 0 <= p0 < 9 and 0 <= p1 < 9 and 0 <= p2 < 9
         post: R(_)
         """
         begin()
         t = skeleton(kind)
         pre = untraced(snap, t)
+        if small and op == 'add_network_service':
+            c = c % 2        # quick tier: at most one interface handed to the new service
         st = do_step(t, op, a, b, c, n, m, [p0, p1, p2], prop == 'C09')
         post = untraced(snap, t)
 
@@ -251,7 +294,7 @@ def mk(prop, kind, op):
         if prop == 'C08':
             if st.raised is not None:
                 return True
-            if st.gone_root is None and st.disconnect is None:
+            if st.gone_root is None and st.disconnect is None and st.unpeer is None:
                 # nothing was addressed that exists: nothing may change
                 return untraced(same_snap, pre, post) if op in REMOVE_OPS else True
             exp = untraced(removal_expected, pre, st)
